@@ -427,6 +427,50 @@ def run_history(hist, quick, full_lattice=True):
     return model.key(), n, errs
 
 
+def config_scenario():
+    """A user who changed other livepoint settings (dtypes, iteration default, placeholder value) and
+    then registers / resets extra fields: the other settings must be left alone, and arrays built
+    afterwards follow them."""
+    from nessai import config
+    from nessai import livepoint as lp
+
+    errs = []
+    lpc = config.livepoints
+    saved = (lpc.logl_dtype, lpc.it_dtype, lpc.it_default, lpc.default_float_dtype, lpc.default_float_value)
+    try:
+        for setting in (dict(it_default=5), dict(it_dtype="i8"), dict(logl_dtype="f16"), dict(default_float_value=-1.0), dict(default_float_dtype="f4"), dict(it_default=3, it_dtype="i8", logl_dtype="f4")):
+            lp.reset_extra_live_points_parameters()
+            for k_, v_ in zip(("logl_dtype", "it_dtype", "it_default", "default_float_dtype", "default_float_value"), saved):
+                setattr(lpc, k_, v_)
+            for k_, v_ in setting.items():
+                setattr(lpc, k_, v_)
+            lpc.reset_properties()
+            before = other_config_snapshot()
+            ref = lp.empty_structured_array(2, ["a", "b"])
+            for events in ([("add", ["u"], [0.25])], [("add", ["u"], [0.25]), ("reset",)], [("add", ["u", "v"], None), ("reset",), ("add", ["v"], [1.5])], [("reset",)]):
+                for ev in events:
+                    if ev[0] == "add":
+                        lp.add_extra_parameters_to_live_points(ev[1], ev[2])
+                    else:
+                        lp.reset_extra_live_points_parameters()
+                if other_config_snapshot() != before:
+                    errs.append(("config:registering-or-resetting-extra-fields-changes-other-settings", f"user settings {setting}, events {events}: {before} -> {other_config_snapshot()}"))
+                    break
+                lp.reset_extra_live_points_parameters()
+                now = lp.empty_structured_array(2, ["a", "b"])
+                if now.dtype != ref.dtype or now.tobytes() != ref.tobytes():
+                    errs.append(("config:arrays-built-after-add-and-reset-differ", f"user settings {setting}: {ref.dtype} -> {now.dtype}"))
+                    break
+    except Exception as e:
+        errs.append((f"config:raises-{type(e).__name__}", str(e)[:200]))
+    finally:
+        lp.reset_extra_live_points_parameters()
+        for k_, v_ in zip(("logl_dtype", "it_dtype", "it_default", "default_float_dtype", "default_float_value"), saved):
+            setattr(lpc, k_, v_)
+        lpc.reset_properties()
+    return errs
+
+
 def expand(item):
     bi, quick, hists = item
     out = []
@@ -447,6 +491,8 @@ def expand(item):
 def run(ctx):
     depth = 3 if ctx.quick else 5
     key, n, errs = run_history([], ctx.quick)
+    for name, detail in config_scenario()[:2]:
+        ctx.violation(name, f"{name} {detail}", {"hist": [], "config": True})
     firsts = {}
     for name, detail in errs:
         firsts.setdefault(name, detail)
